@@ -50,9 +50,30 @@ Theorem C18_complete_in_cell : forall (P : Type) (S : einput R P) a b c S', make
 Proof. exact @complete_in_cell. Qed.
 Print Assumptions C18_complete_in_cell.
 
-(* a sphere is the ellipsoid with three equal radii (from the generated call shape and defaults) *)
+(* EXACTLY the sites inside: with the input atoms inside the unit cell, for one returned centre atom,
+   (a) every returned atom is a crystal site `site m p t` = parent p displaced by the integers t (parent's payload), and
+   (b) for every parent p and ALL integer triples t:  site m p t is returned  <->  it lies in the unit cell of the returned
+       structure and inside the ellipsoid centred on that atom.   (soundness and completeness in one statement) *)
+Theorem C18_exactly_the_sites_inside : forall (P : Type) (S : einput R P) a b c S', make_ellipsoid ROps Rceil S a b c = EOk S' ->
+  let sabc := GV a b c in let m := block_size ROps Rceil sabc (e_recbase S) in let B := scaled_base ROps m (e_base S) in
+  Forall (fun p => in_unit3 (at_xyz p)) (s_atoms (e_S S)) ->
+  exists ctr, In ctr (s_atoms S') /\
+    (forall x, In x (s_atoms S') -> exists p t0 t1 t2, In p (s_atoms (e_S S)) /\ x = site m p t0 t1 t2) /\
+    (forall p t0 t1 t2, In p (s_atoms (e_S S)) ->
+       (In (site m p t0 t1 t2) (s_atoms S') <->
+        in_unit3 (at_xyz (site m p t0 t1 t2)) /\ (c18_crit ROps (cart ROps B (site m p t0 t1 t2)) (cart ROps B ctr) sabc <= 1)%R)).
+Proof. exact @exact_in_cell. Qed.
+Print Assumptions C18_exactly_the_sites_inside.
+
+(* a sphere is the ellipsoid with three equal radii, and the default-argument forms: the defaults are carried from the
+   source into `make_ellipsoid_opt` (c18_default_b, c18_default_c), so "c omitted means c = a" is a theorem about the
+   current source (it fails when the source says c = b) *)
 Theorem C18_sphere_is_ellipsoid : forall (T : Type) (O : ops T) (tceil : T -> Z) (P : Type) (S : einput T P) r,
-  make_sphere O tceil S r = make_ellipsoid O tceil S r r r /\ make_ellipsoid_opt O tceil S r None None = make_ellipsoid O tceil S r r r.
+  make_sphere O tceil S r = make_ellipsoid O tceil S r r r /\
+  make_ellipsoid_opt O tceil S r None None = make_ellipsoid O tceil S r r r /\
+  (forall b, make_ellipsoid_opt O tceil S r (Some b) None = make_ellipsoid O tceil S r b r) /\
+  (forall c, make_ellipsoid_opt O tceil S r None (Some c) = make_ellipsoid O tceil S r r c) /\
+  (forall b c, make_ellipsoid_opt O tceil S r (Some b) (Some c) = make_ellipsoid O tceil S r b c).
 Proof. intros. split; [apply sphere_is_ellipsoid | apply ellipsoid_defaults]. Qed.
 Print Assumptions C18_sphere_is_ellipsoid.
 
